@@ -262,16 +262,10 @@ theorem evalSc_sim (hq : Compat S im wc wr Q) (hg : Good Q ce de) : ∀ (l : Lis
     | exc k n => exact ⟨hc1, rfl⟩
     | val v =>
       simp only
-      by_cases he : isEmptyValue v = true
-      · simp only [he, if_true]; exact evalSc_sim hq hg rest isAnd c1 d1 hc1
-      · simp only [he]
-        cases sem.truth v with
-        | none => exact ⟨hc1, rfl⟩
-        | some b =>
-          simp only
-          by_cases hb : b = isAnd
-          · simp only [hb, if_true]; exact evalSc_sim hq hg rest isAnd c1 d1 hc1
-          · simp only [hb, if_false]; exact ⟨hc1, rfl⟩
+      cases argVerdict sem isAnd v with
+      | neutral => exact evalSc_sim hq hg rest isAnd c1 d1 hc1
+      | decided b => exact ⟨hc1, rfl⟩
+      | error e => exact ⟨hc1, rfl⟩
 end
 
 /-- the simulation for `Evaluator.evaluate`, by induction on the fuel -/
